@@ -176,7 +176,12 @@ func faultScript(rng *rand.Rand) tf.Script {
 			}
 			steps = append(steps, tf.M{"e": "Svc", "q": qq})
 		case x < 55:
-			steps = append(steps, tf.M{"e": "Poll"})
+			poll := tf.M{"e": "Poll"}
+			if rng.Intn(6) == 0 {
+				// one or two of the daemon's chain queries fail in this poll
+				poll["q"] = [][]string{{"valid"}, {"params"}, {"feeds"}, {"vprices"}, {"vprices"}, {"params", "vprices"}, {"feeds", "vprices"}}[rng.Intn(7)]
+			}
+			steps = append(steps, poll)
 		case x < 70:
 			steps = append(steps, tf.M{"e": "Bcast", "id": 0, "r": []string{"ok", "ok", "ok", "ok", "err", "chk", "oog"}[rng.Intn(7)]})
 		case x < 83:
